@@ -294,6 +294,7 @@ func runC12(p *an.Prog, r *an.Run, tier string) {
 	// ---- driver-filters (shared with C08): both drivers fence the host query by the same canonical predicates — host
 	// flag, kind unless the query is empty, LastSeen strictly after now-ExpireInterval compared as time.Time (not in a
 	// coarser unit on one side), limit — so a host on the boundary is not active in one driver and expired in the other
+	checkResultsPrivate(p, r)
 	if exp, ok := p.PkgConstInt("pool/store", "ExpireInterval"); ok {
 		for _, d := range []*types.Named{mem, bad} {
 			if m := p.MethodOf(d, "ActiveHosts"); m != nil {
@@ -344,6 +345,32 @@ func runC12(p *an.Prog, r *an.Run, tier string) {
 		}
 		if nAdd == 0 {
 			sb = append(sb, "Stats.CountNode does not compare LastSeen with now - ExpireInterval")
+		}
+		// the reference instant is read for the comparison after it has been fixed: a read of the helper's own field
+		// that feeds After/Before cannot be followed by the store that initialises that field (the first node of a
+		// pass would be judged against the zero time and count as active whenever it was ever seen)
+		for _, c := range an.Calls(cn, false) {
+			f := an.CallObj(c)
+			if !(an.IsMethod(f, "time", "Time", "After") || an.IsMethod(f, "time", "Time", "Before")) {
+				continue
+			}
+			for _, a := range c.Common().Args {
+				ld, ok := a.(*ssa.UnOp)
+				if !ok || ld.Op != token.MUL {
+					continue
+				}
+				fv := an.FieldOf(ld.X)
+				if fv == nil {
+					continue
+				}
+				hit := an.PathAvoiding(cn, ld, nil, func(x ssa.Instruction) bool {
+					st, ok := x.(*ssa.Store)
+					return ok && an.FieldOf(st.Addr) == fv
+				}, nil)
+				if hit != nil {
+					sb = append(sb, "Stats.CountNode reads "+fv.Name()+" for the activity comparison at "+p.Pos(ld.Pos())+" before it is initialised at "+p.Pos(hit.Pos())+": the first node of a pass is compared with the zero time")
+				}
+			}
 		}
 		r.Check(len(sb) == 0, "stats-window", "store.Stats.CountNode", cn.Pos(), "active <=> LastSeen after now - ExpireInterval", "%s", strings.Join(sb, "; "))
 	} else {
